@@ -117,6 +117,12 @@ def linearize(expr: sympy.Expr, symbol: sympy.Symbol) -> sympy.Expr:
         The derivative
     """
     diff = expr.diff(symbol)
+    if diff.has(sympy.zoo, sympy.nan):
+        # sympy differentiates u**n as u**n * n * u' / u, which divides by zero in
+        # the branches where a conditional u is 0. Differentiate branch by branch
+        folded = sympy.piecewise_fold(expr).diff(symbol)
+        if not folded.has(sympy.zoo, sympy.nan):
+            diff = folded
     if not diff.has(sympy.Derivative, sympy.Subs, sympy.re, sympy.im):
         return diff
 
